@@ -1,5 +1,6 @@
 /* Native replay for C18: real code with an allocator table (p_mem_set_vtable) that fails the k-th allocation, for every k.
  * mode dir: p_dir_new / p_dir_get_next_entry on an existing directory; mode rwlock: p_rwlock_new (general model).
+ * mode ini: parse + free; mode ini_getter<0-3>: sections / keys / parameter_string / parameter_list after a successful parse.
  * ASan/UBSan or a crash (SIGSEGV in a child) is the reproduction. */
 #include <plibsys.h>
 #include <stdio.h>
@@ -20,6 +21,18 @@ static void scenario (const char *mode)
 		PIniFile *f = p_ini_file_new ("/tmp/verif_c18_replay.ini");
 		if (f) { p_ini_file_parse (f, NULL); p_ini_file_free (f); }
 		if (live != 0) { printf ("leak: %d block(s) still allocated after p_ini_file_free\n", live); _exit (3); }
+	} else if (!strncmp (mode, "ini_getter", 10)) {
+		/* parse with a working allocator, then fail the k-th allocation made by the getter; the caller releases the result */
+		int k = fail_at, which = mode[10] ? mode[10] - '0' : 0; fail_at = 0;
+		PIniFile *f = p_ini_file_new ("/tmp/verif_c18_replay.ini");
+		if (!f || !p_ini_file_parse (f, NULL)) _exit (0);
+		int live0 = live; fail_at = count + k;
+		PList *l = NULL; pchar *r = NULL;
+		if (which == 0) l = p_ini_file_sections (f); else if (which == 1) l = p_ini_file_keys (f, "a"); else if (which == 2) r = p_ini_file_parameter_string (f, "a", "k", NULL); else l = p_ini_file_parameter_list (f, "b", "x");
+		for (PList *c = l; c; c = c->next) p_free (c->data);
+		p_list_free (l); p_free (r);
+		if (live != live0) { printf ("leak: %d block(s) allocated by the getter remain after its result was released\n", live - live0); _exit (3); }
+		p_ini_file_free (f);
 	} else {
 		PRWLock *l = p_rwlock_new ();
 		if (l) p_rwlock_free (l);
@@ -30,7 +43,7 @@ int main (int argc, char **argv)
 	const char *mode = argc > 1 ? argv[1] : "dir";
 	p_libsys_init ();
 	int bad = 0;
-	if (!strcmp (mode, "ini")) { FILE *t = fopen ("/tmp/verif_c18_replay.ini", "w"); if (t) { fputs ("[a]\nk = v\n[b]\nx = y\n", t); fclose (t); } }
+	if (!strncmp (mode, "ini", 3)) { FILE *t = fopen ("/tmp/verif_c18_replay.ini", "w"); if (t) { fputs ("[a]\nk = v\n[b]\nx = {p q}\n", t); fclose (t); } }
 	for (int k = 1; k <= 24; k++) {
 		fflush (stdout);
 		pid_t pid = fork ();
